@@ -480,6 +480,80 @@ Proof.
   - intros c Hc. rewrite init_asg_length. eapply work_in_range; eauto. eapply Permutation_in; eauto.
 Qed.
 
+(* ---- the forest check ---- *)
+Lemma cidx_some_in names c i : cidx names c = Some i -> In c names.
+Proof.
+  unfold cidx. intros E. apply find_index_nth in E. destruct E as (x & Hx & Ex). apply Z.eqb_eq in Ex. subst.
+  eapply nth_error_In; eauto.
+Qed.
+
+Lemma walk_nofuel names ps fuel : forall seen p, NoDup seen -> incl seen names ->
+  (length names <= length seen + fuel)%nat -> walk names ps fuel seen p <> OutOfFuel.
+Proof.
+  induction fuel as [|f IH]; intros seen p N I L; destruct p as [q|]; cbn; try discriminate;
+    destruct (memZ q seen) eqn:M; try discriminate; destruct (cidx names q) as [i|] eqn:C; try discriminate.
+  - exfalso. apply memZ_false in M. apply cidx_some_in in C.
+    assert (N' : NoDup (q :: seen)) by (constructor; auto).
+    assert (I' : incl (q :: seen) names) by (intros x [<-|Hx]; auto).
+    pose proof (NoDup_incl_length N' I') as Le. cbn in Le. lia.
+  - apply memZ_false in M. apply cidx_some_in in C. apply IH.
+    + constructor; auto.
+    + intros x [<-|Hx]; auto.
+    + cbn. lia.
+Qed.
+
+Lemma check_forest_nofuel names ps : check_forest names ps <> OutOfFuel.
+Proof.
+  unfold check_forest. apply foldM_nofuel_in. intros u nm Hn. apply walk_nofuel.
+  - constructor; [intros []|constructor].
+  - intros x [<-|[]]. exact Hn.
+  - cbn. lia.
+Qed.
+
+Lemma add_relationships_nofuel names gs : add_relationships names gs <> OutOfFuel.
+Proof.
+  unfold add_relationships. intros H. apply bind_fuel in H. destruct H as [H|(ps & _ & H)].
+  - revert H. apply foldM_nofuel, group_step_nofuel.
+  - apply bind_fuel in H. destruct H as [H|(u & _ & H)]; [|discriminate]. revert H. apply check_forest_nofuel.
+Qed.
+
+(* the parent chain: chain j p = the j-th ancestor reached from p *)
+Fixpoint chain (names : list Z) (ps : list (option Z)) (j : nat) (p : option Z) : option Z :=
+  match j, p with
+  | O, _ => p
+  | S k, Some q => chain names ps k (parent_of names ps q)
+  | S _, None => None
+  end.
+
+Lemma walk_ok names ps fuel : forall seen p, walk names ps fuel seen p = OK tt ->
+  forall j q, chain names ps j p = Some q -> ~ In q seen.
+Proof.
+  induction fuel as [|f IH]; intros seen p H j q Hc; destruct p as [q0|];
+    try (destruct j; cbn in Hc; discriminate); cbn in H;
+    destruct (memZ q0 seen) eqn:M; try discriminate; destruct (cidx names q0) as [i|] eqn:C; try discriminate.
+  apply memZ_false in M. destruct j as [|j]; cbn in Hc.
+  - inversion Hc. subst. exact M.
+  - unfold parent_of in Hc. rewrite C in Hc. intros Hin. apply (IH _ _ H j q Hc). now right.
+Qed.
+
+Lemma check_forest_ok names ps : check_forest names ps = OK tt ->
+  forall c j, In c names -> chain names ps j (parent_of names ps c) <> Some c.
+Proof.
+  unfold check_forest. intros H c j Hc E.
+  assert (W : forall l u u', foldM (fun _ nm => walk names ps (length names) [nm] (parent_of names ps nm)) l u = OK u' ->
+              forall nm, In nm l -> walk names ps (length names) [nm] (parent_of names ps nm) = OK tt).
+  { induction l as [|x r IH]; intros u u' F nm Hn; [contradiction|]. cbn in F. apply bind_ok in F.
+    destruct F as (z & Fz & F). destruct z. destruct Hn as [<-|Hn]; eauto. }
+  apply (walk_ok _ _ _ _ _ (W _ _ _ H c Hc) j c E). now left.
+Qed.
+
+Lemma add_relationships_ok names gs ps : add_relationships names gs = OK ps ->
+  read_groups names gs = OK ps /\ check_forest names ps = OK tt.
+Proof.
+  unfold add_relationships. intros H. apply bind_ok in H. destruct H as (ps' & R & H).
+  apply bind_ok in H. destruct H as (u & F & H). inversion H. subst. destruct u. auto.
+Qed.
+
 Theorem load_total d : load d <> OutOfFuel.
 Proof.
   unfold load. destruct (existsb c_units_inside (d_comps d)); [discriminate|].
@@ -487,7 +561,7 @@ Proof.
   apply bind_fuel in H. destruct H as [H|([names vars] & H1 & H)].
   { revert H. apply foldM_nofuel, add_comp_nofuel. }
   cbn [fst snd] in H. apply bind_fuel in H. destruct H as [H|(ps & H2 & H)].
-  { revert H. apply foldM_nofuel, group_step_nofuel. }
+  { revert H. apply add_relationships_nofuel. }
   apply bind_fuel in H. destruct H as [H|(work & H3 & H)].
   { revert H. apply foldM_nofuel, conn_step_nofuel. }
   apply bind_fuel in H. destruct H as [H|(cs & H4 & H)].
@@ -598,6 +672,17 @@ Proof.
   intros (c1 & v1 & c2 & v2 & i1 & i2 & Hp & H1 & H2 & Hv). apply reject. intros f H. apply load_stages in H.
   destruct (stages_pair _ _ H _ Hp) as (s & t & Hd & _). cbn in Hd.
   rewrite (direction_valid _ _ _ _ _ _ _ _ _ _ H1 H2 Hd) in Hv. discriminate.
+Qed.
+
+(* a component that is its own ancestor in the encapsulation hierarchy read from the groups *)
+Lemma reject_cyclic_encapsulation d :
+  (exists ps c j, read_groups (st_names d) (d_groups d) = OK ps /\ In c (st_names d) /\
+                  chain (st_names d) ps j (parent_of (st_names d) ps c) = Some c) ->
+  exists e, load d = Error e.
+Proof.
+  intros (ps & c & j & R & Hc & E). apply reject. intros f H. apply load_stages in H.
+  pose proof (s_rels _ _ H) as A. apply add_relationships_ok in A. destruct A as (R' & F).
+  rewrite R in R'. inversion R'. subst. exact (check_forest_ok _ _ F c j Hc E).
 Qed.
 
 (* both ends are variables without any `in` interface *)
